@@ -437,7 +437,7 @@ def soft_stage(check, props, what):
     return all_ok
 
 
-def soft_bridge(check, props=("GenBridge", "GenCorollaries")):
+def soft_bridge(check, props=("GenBridge", "GenCorollaries", "GenMeanOutput")):
     """ADDITIONAL tie by statement-level translation (tools/py2lean_eff.py): `explain_one` of IncrementalPFI / IncrementalSage and the
     MarginalImputer / DefaultImputer are regenerated as `do`-blocks (Gen/IncrementalPFI.lean, Gen/IncrementalSage.lean,
     Gen/MarginalImputer.lean, Gen/DefaultImputer.lean); Props/GenBridge.lean and Props/GenImputer.lean prove the generated definitions
